@@ -108,12 +108,30 @@ def inject(case):
     def sha(path):
         return hashlib.sha256(open(path, "rb").read()).hexdigest() if os.path.exists(path) else None
 
+    opcode_n = case.get("opcode")
+    op_count = [0, False]   # opcodes executed in the armed call, armed?
+
     def tracer(frame, event, arg):
         if frame.f_code is code:
+            if opcode_n is not None:
+                frame.f_trace_opcodes = True
+                if not fired[0] and op_count[1] is False and fs.ns.iteration >= case["min_it"]:
+                    op_count[0], op_count[1] = 0, "armed"    # arm on entry of the first call at or after the phase
+
             def local(frame, event, arg):
-                if event == "line" and frame.f_lineno == target and not fired[0] and fs.ns.iteration >= case["min_it"]:
+                if opcode_n is not None:
+                    hit = event == "opcode" and op_count[1] == "armed" and not fired[0]
+                    if hit:
+                        op_count[0] += 1
+                        hit = op_count[0] - 1 == opcode_n
+                    if event == "return" and op_count[1] == "armed" and not fired[0]:
+                        op_count[1] = "done"    # the armed call ended before the n-th opcode: not reached
+                else:
+                    hit = event == "line" and frame.f_lineno == target and not fired[0] and fs.ns.iteration >= case["min_it"]
+                if hit:
                     fired[0] = True
                     sys.settrace(None)
+                    snap["lineno"] = frame.f_lineno - start
                     ns = fs.ns
                     snap["it"] = int(ns.iteration)
                     if not ins:
@@ -155,6 +173,7 @@ def inject(case):
         shutil.rmtree(out, ignore_errors=True)
         return res
     res["snap_it"] = snap.get("it")
+    res["snap_line"] = snap.get("lineno")
     res["pred"] = snap.get("pred")
     problems = []
     if res["exit"] != case.get("exit_code", 130):
@@ -321,6 +340,14 @@ def main():
         for ph in sel:
             cases.append(dict(t, min_it=ph, kwargs=kwargs, outdir=os.path.join(chk.scratch, f"inj-{t['sampler']}-{t['func']}-{t['rel']}-{ph}"), _timeout=400,
                               signum=[15, 2, 14][(k + ph) % 3]))
+    if not chk.quick:
+        # bytecode granularity for the core of the replace step: the handler is invoked before the n-th executed opcode of one call
+        for fn, nmax, step in (("insert_live_point", 90, 1), ("increment", 260, 1), ("consume_sample", 520, 2)):
+            t0 = next(t for t in targets if t["func"] == fn)
+            for ph in (30, 120):
+                for n in range(0, nmax, step):
+                    cases.append(dict(sampler="std", func=fn, rel=t0["rel"], stmt=f"opcode #{n} of {fn}", min_it=ph, opcode=n, kwargs={}, signum=15,
+                                      outdir=os.path.join(chk.scratch, f"op-{fn}-{n}-{ph}"), _timeout=400))
     if chk.replay_case:
         c = dict(chk.replay_case["case"])
         c["outdir"] = os.path.join(chk.scratch, "replay")
@@ -331,7 +358,7 @@ def main():
     reached_lines = set()
     states = set()
     for c, r in zip(cases, res):
-        small = {k: c[k] for k in ("sampler", "func", "rel", "min_it", "kwargs", "signum", "stmt")}
+        small = {k: c[k] for k in ("sampler", "func", "rel", "min_it", "kwargs", "signum", "stmt", "opcode") if k in c}
         if "fired" not in r:
             chk.note_inconclusive(f"injection {c['func']}+{c['rel']}@{c['min_it']}: {str(r)[:300]}")
             chk.case_done()
@@ -342,7 +369,9 @@ def main():
             continue
         chk.count("injections_delivered")
         chk.count("injections_" + c["sampler"])
-        reached_lines.add((c["func"], c["rel"]))
+        reached_lines.add((c["func"], c["rel"] if c.get("opcode") is None else r.get("snap_line")))
+        if c.get("opcode") is not None:
+            chk.count("opcode_level_injections_delivered")
         pred = r.get("pred") or {}
         states.add((c["sampler"], tuple(sorted(k for k, v in pred.items() if v))))
         for k, v in pred.items():
@@ -350,7 +379,7 @@ def main():
                 chk.count("interrupted_in_state_" + k)
         ok = not r["problems"]
         chk.count("injections_resumed_to_valid_run" if ok else "injections_with_problems")
-        chk.case_done(ident=(c["sampler"], c["func"], c["rel"], c["min_it"]), nontrivial=True,
+        chk.case_done(ident=(c["sampler"], c["func"], c["rel"], c["min_it"], c.get("opcode")), nontrivial=True,
                       sample=dict(injection=small, interrupted_at_iteration=r.get("snap_it"), state_predicates=pred, exit=r.get("exit"), resume=r.get("resume"), final=r.get("final"),
                                   problems=r["problems"][:2]) if len(chk.samples) < 5 and (c["func"] in ("update_state", "ins_loop", "consume_sample")) else None)
         seen = set()
